@@ -3,6 +3,8 @@ package main
 import (
 	"fmt"
 	"go/token"
+	"go/types"
+	"math"
 	"strings"
 
 	"golang.org/x/tools/go/ssa"
@@ -15,12 +17,14 @@ func init() {
 			"C19.bounded-alloc: no tainted value is the length/capacity of a make, the argument of bytes.Buffer.Grow or of a slice/array pre-allocation, unless a dominating comparison bounds it by a constant (memory must follow the bytes actually read: io.CopyN / append-while-reading are the accepted idioms). " +
 			"C19.size-floor: every subtraction 'size - k' on a tainted size is dominated by a comparison establishing size >= k (linear forms over memory locations, because go/ssa reloads struct fields). " +
 			"C19.slice-guards: every slice expression with a constant or len-derived bound on bytes read from the input (b[:len(b)-1], b[0:8], Body[40:], Body[8:40]) is dominated by a comparison that establishes the needed length, or the buffer is the result of ReadN(n) with a proven lower bound n >= needed. " +
+			"C19.signed-length: where a tainted unsigned value is converted to a signed integer and used as the byte count of io.CopyN / io.LimitReader / io.NewSectionReader / Seek, a dominating comparison rejects values above MaxInt64 (a negative count makes these functions read nothing and report success, so a size field >= 2^63 would be accepted with no data). " +
 			"C19.tainted-loops: a loop whose bound is tainted reads from the input in every iteration and leaves on a read error. C19.fixed-size: the Entry and Device elements are rejected unless their size field equals the fixed size.",
 		NotDecided: "allocation inside bufio, bytes.Buffer growth policy and zstd; proportionality constants; panics inside library code.",
 		Rules: []rule{
 			{"C19.bounded-alloc", "no allocation is sized by an unbounded value read from the input", 1, c19BoundedAlloc},
 			{"C19.size-floor", "size - k only behind size >= k", 4, c19SizeFloor},
 			{"C19.slice-guards", "fixed-offset slicing of input bytes only behind a sufficient length", 5, c19SliceGuards},
+			{"C19.signed-length", "an input value converted to a signed length (io.CopyN, io.LimitReader) is first bounded by MaxInt64", 2, c19SignedLength},
 			{"C19.tainted-loops", "loops bounded by an input value consume input each iteration", 1, c19TaintedLoops},
 			{"C19.fixed-size", "fixed-size elements check their size field", 2, c19FixedSize},
 		},
@@ -39,6 +43,11 @@ func (c *Ctx) libFuncs() []*ssa.Function {
 
 // upperBounded reports whether a dominating comparison bounds expr from above by a constant.
 func upperBounded(fn *ssa.Function, at ssa.Instruction, expr ssa.Value) bool {
+	return upperBoundedBy(fn, at, expr, 1<<30)
+}
+
+// upperBoundedBy: a dominating comparison bounds expr from above by a constant <= maxK.
+func upperBoundedBy(fn *ssa.Function, at ssa.Instruction, expr ssa.Value, maxK int64) bool {
 	e := linearLoc(expr)
 	if !e.ok {
 		return false
@@ -77,7 +86,7 @@ func upperBounded(fn *ssa.Function, at ssa.Instruction, expr ssa.Value) bool {
 			continue
 		}
 		l, r := linearLoc(L), linearLoc(R)
-		if !l.ok || !r.ok || len(nonZero(r.atoms)) != 0 || r.k > 1<<30 || r.k < 0 {
+		if !l.ok || !r.ok || len(nonZero(r.atoms)) != 0 || r.k > maxK || r.k < 0 {
 			continue // the bound must be a (sane) constant: n <= MaxInt64 bounds nothing
 		}
 		d := e.add(l, -1)
@@ -402,4 +411,62 @@ func c19FixedSize(c *Ctx) {
 		}
 		c.verdict(found, fmt.Sprintf("FormatDecoder.Next:fixed-size-%d", want), fn.Pos(), fmt.Sprintf("an element of fixed size %d is rejected when its size field differs", want), fmt.Sprintf("no rejecting check of the size field against %d", want))
 	}
+}
+
+// c19SignedLength: see the property explanation.
+func c19SignedLength(c *Ctx) {
+	fns := c.libFuncs()
+	t := computeTaint(c, fns)
+	sinks := map[string]int{"io.CopyN": 2, "io.LimitReader": 1, "io.NewSectionReader": 2, "(*os.File).Seek": 1, "(*bytes.Buffer).Grow": 1}
+	n := 0
+	for _, f := range fns {
+		instrs(f, func(_ *ssa.BasicBlock, _ int, ins ssa.Instruction) {
+			call, ok := ins.(*ssa.Call)
+			if !ok {
+				return
+			}
+			ai, ok := sinks[callee(call)]
+			if !ok || ai >= len(call.Call.Args) {
+				return
+			}
+			for _, l := range leavesNoConv(call.Call.Args[ai]) {
+				cv, ok := l.(*ssa.Convert)
+				if !ok || !t.val[cv.X] {
+					continue
+				}
+				from, _ := cv.X.Type().Underlying().(*types.Basic)
+				to, _ := cv.Type().Underlying().(*types.Basic)
+				if from == nil || to == nil || from.Info()&types.IsUnsigned == 0 || to.Info()&types.IsUnsigned != 0 {
+					continue
+				}
+				n++
+				key := fmt.Sprintf("%s:%s", fnKey(f), callee(call))
+				c.verdict(upperBoundedBy(f, cv, cv.X, math.MaxInt64), key, call.Pos(), "the input-derived count is rejected above MaxInt64 before it is converted to a signed length",
+					fmt.Sprintf("a value read from the input is converted to a signed %s and used as the byte count of %s without a dominating check against MaxInt64: for a size field >= 2^63 the count is negative, nothing is read and no error is reported (empty data for a huge declared size; callers slice the empty result)", to.Name(), callee(call)))
+			}
+		})
+	}
+	c.ok("signed-length", token.NoPos, "%d signed conversions of input values used as byte counts", n)
+}
+
+// leavesNoConv is leaves() without looking through conversions.
+func leavesNoConv(v ssa.Value) []ssa.Value {
+	var out []ssa.Value
+	seen := map[ssa.Value]bool{}
+	var walk func(v ssa.Value)
+	walk = func(v ssa.Value) {
+		if v == nil || seen[v] {
+			return
+		}
+		seen[v] = true
+		if phi, ok := v.(*ssa.Phi); ok {
+			for _, e := range phi.Edges {
+				walk(e)
+			}
+			return
+		}
+		out = append(out, v)
+	}
+	walk(v)
+	return out
 }
